@@ -590,3 +590,64 @@ func builderThenFilter(id string, kind int) {
 
 func VerifC03EndToEndInt8()   { builderThenFilter("c03.e2e.int8", tInt8) }
 func VerifC03EndToEndUint64() { builderThenFilter("c03.e2e.uint64", tUint64) }
+
+// ---------------------------------------------------------------------------
+// (e) Non-integer literals on integer columns: the builder rounds the key with
+// floor / ceil depending on the operator. Literals are concrete DOUBLE values
+// (floats are concrete-only in the executor); the row value is symbolic.
+// (Added after the seeded change /verif/seeded/C05-greaterthan-ceil — floor
+// turned into ceil in GreaterThan — was missed: non-integer literals were
+// outside the first version's claim.)
+// ---------------------------------------------------------------------------
+
+func builderFractional(id string, kind int) {
+	idx := &fakeIndex{cols: []sql.ColumnExpressionType{{Type: colType(kind), Expression: "t.a"}}}
+	b := sql.NewMySQLIndexBuilder(nil, idx)
+	_, v := ndColValue("fr.row", kind)
+	p := point{null: nd.Bool("fr.row.null"), v: v}
+	lits := [...]float64{2.5, -2.5, 0.5, -0.5, 126.5, -128.5, 2.0, -3.0, 0.0}
+	c := lits[nd.Pick("fr.lit", len(lits))]
+	f := int64(c) // truncation toward zero …
+	if float64(f) > c {
+		f-- // … corrected to floor
+	}
+	frac := float64(f) != c
+	op := nd.Pick("fr.op", 6) // opEq..opLe
+	apply(b, "t.a", op, c, types.Float64)
+	k := wInt(f)
+	var want bool
+	switch op {
+	case opEq:
+		want = !frac && pred(opEq, p, k)
+	case opNe:
+		if frac {
+			want = !p.null
+		} else {
+			want = pred(opNe, p, k)
+		}
+	case opGt: // v > c  <=>  v > floor(c)
+		want = pred(opGt, p, k)
+	case opGe: // v >= c <=>  v > floor(c) for fractional c, v >= c otherwise
+		if frac {
+			want = pred(opGt, p, k)
+		} else {
+			want = pred(opGe, p, k)
+		}
+	case opLt: // v < c  <=>  v <= floor(c) for fractional c, v < c otherwise
+		if frac {
+			want = pred(opLe, p, k)
+		} else {
+			want = pred(opLt, p, k)
+		}
+	default: // v <= c <=>  v <= floor(c)
+		want = pred(opLe, p, k)
+	}
+	rc := finish(id, b, idx)
+	got, hits, _ := inCollection(rc, []point{p})
+	nd.Assert(id+".no-row-lost", nd.Implies(want, got))
+	nd.Assert(id+".no-row-added", nd.Implies(got, want))
+	nd.Assert(id+".no-row-twice", hits <= 1)
+}
+
+func VerifC03BuilderFractionalInt8()  { builderFractional("c03.fractional.int8", tInt8) }
+func VerifC03BuilderFractionalInt64() { builderFractional("c03.fractional.int64", tInt64) }
